@@ -126,7 +126,7 @@ func runC06(c *core.Ctx) {
 	c.CasesPar("conn", c.N(3000, 200000), 4, func(k *core.Case) { c06Conn(k) })
 	c.CasesPar("transport", c.N(2400, 150000), 4, func(k *core.Case) { c06Transport(k) })
 	// one at a time: the bursts need the processors of the shard
-	c.Cases("burst", c.N(64, 1600), func(k *core.Case) { c06Burst(k) })
+	c.Cases("burst", c.N(64, 800), func(k *core.Case) { c06Burst(k) })
 }
 
 type c06Call struct {
